@@ -48,6 +48,23 @@ GivenD(op, c) == CASE c = "broken" -> op.db [] c = "fleeting" -> op.dl [] c = "f
 DropEntry(f, k, c) ==      \* remove change c of key k; an emptied entry disappears
    IF DOMAIN f[k] = {c} THEN Drop(f, {k}) ELSE [f EXCEPT ![k] = Drop(@, {c})]
 
+StripAttrs(g) == [g EXCEPT !.aat = [a \in DOMAIN @ |-> Emp],
+                           !.bd = [b \in DOMAIN @ |-> [role |-> @[b].role, at |-> Emp]]]
+
+Dangling(g) == ~(DescrIds(g.ast) \cup DescrIds(g.bst) \cup ChangeIds(g.ach) \cup ChangeIds(g.bch)
+                   \cup UNION (DOMAIN g.bst) \cup UNION (DOMAIN g.bch) \subseteq Atoms(g))
+
+(* a bond stereo change recorded for a side of the reaction on which the bond does
+   not exist: reactant()/product() (hence ==, hash) may refuse such a graph *)
+IllFormedSides(g) ==
+   \E b \in DOMAIN g.bch :
+      \/ "broken" \in DOMAIN g.bch[b] /\ ~(b \in Bonds(g) /\ g.bd[b].role \in {"none", "broken"})
+      \/ "formed" \in DOMAIN g.bch[b] /\ ~(b \in Bonds(g) /\ g.bd[b].role \in {"none", "formed"})
+      \/ "fleeting" \in DOMAIN g.bch[b] /\ b \notin Bonds(g)
+
+HasPlaceholder(g) == \/ \E k \in DOMAIN g.ast : Mentions(g.ast[k], NoAtom)
+                     \/ \E k \in DOMAIN g.bst : Mentions(g.bst[k], NoAtom)
+
 (* a copy whose least atom got another element and attribute q = 8 and whose
    least bond got attribute w = 8 (so that compose sees conflicting pieces) *)
 LeastBond(B) == CHOOSE b \in B : \A c \in B : Enc(SortedPair(b)) <= Enc(SortedPair(c))
@@ -167,11 +184,19 @@ Outcomes(g, h, op) ==
     [] n = "get_bond_stereo_change" ->
          IF ~HasBond(g, a, b) THEN Negative(g)
          ELSE IF {a, b} \in DOMAIN g.bch THEN { ANS(g, AChg(g.bch[{a, b}])) } ELSE { ANS(g, NoAns), ANS(g, AChg(Emp)) }
-    [] n = "is_stereo_valid" -> { ANS(g, ABool(StereoValid(g))) }
-    [] n \in {"eq_self", "eq_copy"} -> { ANS(g, ABool(TRUE)) }
-    [] n \in {"hash", "str", "to_json", "to_rdmol"} -> { ANS(g, AAny), RAISE(g) }
+    [] n = "is_stereo_valid" ->      \* no property says whether a lone-pair placeholder needs a bond
+         IF HasPlaceholder(g) THEN { ANS(g, ABool(TRUE)), ANS(g, ABool(FALSE)) }
+         ELSE { ANS(g, ABool(StereoValid(g))) }
+    [] n \in {"eq_self", "eq_copy"} ->   \* a descriptor naming something that is not an atom: may refuse
+         IF Dangling(g) \/ IllFormedSides(g) THEN { ANS(g, ABool(TRUE)), RAISE(g) } ELSE { ANS(g, ABool(TRUE)) }
+    [] n = "hash" -> IF Dangling(g) \/ IllFormedSides(g) THEN { ANS(g, AAny), RAISE(g) } ELSE { ANS(g, AAny) }
+    [] n \in {"str", "to_json", "to_rdmol"} -> { ANS(g, AAny), RAISE(g) }
     (* ---------------------------- derivations ---------------------------- *)
-    [] n \in {"copy", "json_roundtrip"} -> { RES(g, g) }
+    [] n = "copy" -> { RES(g, g) }
+    [] n = "json_roundtrip" ->         \* the JSON format carries no free attributes: kept or dropped
+         { RES(g, g), RES(g, StripAttrs(g)) } \cup
+         (IF HasRoles(g.kind) THEN {}      \* on a plain (stereo) molecule graph a role is just an attribute
+          ELSE { RES(g, [StripAttrs(g) EXCEPT !.bd = [bb \in DOMAIN @ |-> [role |-> "none", at |-> Emp]]]) })
     [] n = "copy_ctor" -> { RES(g, Convert(g, op.tk)) }
     [] n = "copy_mod" -> { RES(g, Modified(g)) }   \* copy, then edit the copy (harness composite)
     [] n = "relabel_copy" ->
@@ -181,8 +206,8 @@ Outcomes(g, h, op) ==
          ELSE { RAISE(g), RES(g, Subgraph(g, op.S \cap Atoms(g))) }
     [] n = "enantiomer" -> { RES(g, Enantiomer(g)) }
     [] n = "reverse"  -> { RES(g, Reverse(g, TRUE)), RES(g, Reverse(g, FALSE)) }
-    [] n = "reactant" -> { RES(g, Reactant(g, op.flag)) }
-    [] n = "product"  -> { RES(g, Product(g, op.flag)) }
+    [] n = "reactant" -> { RES(g, Reactant(g, op.flag)) } \cup (IF IllFormedSides(g) THEN { RAISE(g) } ELSE {})
+    [] n = "product"  -> { RES(g, Product(g, op.flag)) } \cup (IF IllFormedSides(g) THEN { RAISE(g) } ELSE {})
     [] n = "compose"  -> { RES(g, Compose(<<g, h>>, op.tk, TRUE)), RES(g, Compose(<<g, h>>, op.tk, FALSE)) }
     [] n = "compose_components" ->     \* compose of the component subgraphs
          LET cs == Components(g)
